@@ -32,7 +32,7 @@ ASSUMPTIONS = ["documents are well-formed JSON; the Go value validated is the on
 EVAL_DEFS = [("UNM", "case_unmodelled"), ("MM_STD", "mm_std"), ("MM_STRICT", "mm_strict"), ("MM_VAL", "mm_validate"),
              ("PF_MISSED", "pf_val_missed"), ("PF_SPURIOUS", "pf_val_spurious"),
              ("PF_OVERACCEPT", "pf_strict_overaccept"), ("PF_OVERREJECT", "pf_strict_overreject"),
-             ("PF_PANIC", "pf_panic"), ("ALIAS", "case_alias_constraints"), ("MPANIC", "model_strict_panics")]
+             ("PF_PANIC", "pf_panic"), ("ALIAS", "case_alias_constraints"), ("MPANIC", "model_strict_panics"), ("MM_SPEC08", "mm_c08_spec")]
 
 STRICT_FAULTS = ("unknown_key", "missing_required", "null_non_nullable", "wrong_type")
 VALIDATE_FAULTS = ("bound_off_by_one", "length_off_by_one")
@@ -73,6 +73,71 @@ def has_null_element(doc):
     if isinstance(doc, srcgen.DupObj):
         return any(has_null_element(v) for _, v in doc.pairs)
     return False
+
+
+def through_union_of_structs(schema, path):
+    """does the document path cross a field whose Src type is a discriminated union of structs?"""
+    if not schema or not schema.get("defs"):
+        return False
+    defs = {d["name"]: d["t"] for d in schema["defs"]}
+    t = defs.get(schema["root"])
+    for seg in path:
+        while t is not None and t["k"] == "ref":
+            t = defs.get(t["name"])
+        if t is None:
+            return False
+        if t["k"] == "dunion":
+            return True
+        if t["k"] == "struct":
+            f = [f for f in t["fields"] if f["name"] == seg]
+            t = f[0]["t"] if f else None
+        elif t["k"] in ("array", "map"):
+            t = t["of"]
+        else:
+            return False
+    while t is not None and t["k"] == "ref":
+        t = defs.get(t["name"])
+    return t is not None and t["k"] == "dunion"
+
+
+def doc_at(doc, pathstr):
+    """value of a document at a BuildError path such as  a.b[3].c[key].d  (KeyError when absent)"""
+    cur = doc
+    for seg in re.findall(r"\[[^\]]*\]|[^.\[\]]+", pathstr):
+        if seg.startswith("["):
+            key = seg[1:-1]
+            cur = cur[int(key)] if isinstance(cur, list) else cur[key]
+        else:
+            cur = cur[seg]
+    return cur
+
+
+def null_required_cause(doc, spaths, fmt):
+    """every complaint of the strict decoder is about a member that is null in the document"""
+    try:
+        if spaths and all(doc_at(doc, p) is None for p in spaths):
+            return "null-for-required-member-the-schema-allows-null-for:" + fmt
+    except Exception:
+        pass
+    return None
+
+
+def null_prefix_cause(doc, paths, fmt):
+    """a reported path runs through a member that is null in the document (the generated type has no
+    way to hold that null: it decoded to a zero value)"""
+    try:
+        for p in paths or []:
+            segs = re.findall(r"\[[^\]]*\]|[^.\[\]]+", p)
+            for k in range(1, len(segs) + 1):
+                pre = "".join(s_ if s_.startswith("[") else ("." + s_ if i else s_) for i, s_ in enumerate(segs[:k]))
+                try:
+                    if doc_at(doc, pre) is None:
+                        return "null-for-member-the-schema-allows-null-for:" + fmt
+                except Exception:
+                    break
+    except Exception:
+        pass
+    return None
 
 
 def has_fraction_zero(text):
@@ -187,9 +252,11 @@ def run(ctx, verdict, replay=None, model_ok=True):
     for i in by_size(ev["PF_OVERACCEPT"]):
         j = camp.jobs[i]
         if any(has_dup(d) for d in j["pydocs"]):
-            cause = "duplicate-member-names"
-        elif any(has_null_element(d) for d in j["pydocs"]):
+            continue        # assumption: documents without duplicate member names
+        if any(has_null_element(d) for d in j["pydocs"]):
             cause = "null-element-of-non-nullable-collection"
+        elif "null" in " ".join(j["docs"]):
+            cause = "null-map-value-or-member"
         else:
             cause = "other"
         report({"part": "strict", "kind": "accepts-document-breaking-a-condition", "cause": cause}, i,
@@ -205,6 +272,7 @@ def run(ctx, verdict, replay=None, model_ok=True):
               "fault_not_caught_by_strict": 0}
     fault_hist, depth_hist = {}, {"top": 0, "below": 0}
     ref_rejects = []
+    schema_by0 = {sid: s for sid, s in plan}
     for i in live:
         j, r, v = camp.jobs[i], camp.results[i], ref.get(i)
         faults = j["meta"].get("faults") or [None] * len(j["docs"])
@@ -222,13 +290,15 @@ def run(ctx, verdict, replay=None, model_ok=True):
                     continue
                 if x["std"] == "ok" and x["vals"] == "err":
                     oracle["valid_but_validate_errors"] += 1
-                    report({"part": "validate", "kind": "error-on-document-the-schema-accepts", "cause": fmt}, i, {"doc_index": d})
+                    report({"part": "validate", "kind": "error-on-document-the-schema-accepts",
+                            "cause": null_prefix_cause(j["pydocs"][d], x.get("val"), fmt) or fmt}, i, {"doc_index": d})
                 if x["strict"] in ("err", "panic"):
                     oracle["valid_but_strict_rejects"] += 1
                     shapes = code_shapes(batch, j["sid"])
-                    report({"part": "strict", "kind": "rejects-document-the-schema-accepts",
-                            "cause": ("panic:" if x["strict"] == "panic" else "") + ("+".join(shapes) or fmt + "-front-end-or-other")}, i,
-                           {"doc_index": d})
+                    cause = null_required_cause(j["pydocs"][d], x.get("spaths"), fmt) if x["strict"] == "err" else None
+                    if cause is None:
+                        cause = ("panic:" if x["strict"] == "panic" else "") + ("+".join(shapes) or fmt + "-front-end-or-other")
+                    report({"part": "strict", "kind": "rejects-document-the-schema-accepts", "cause": cause}, i, {"doc_index": d})
             else:
                 kind, path = fl
                 oracle["faulty_docs"] += 1
@@ -239,21 +309,27 @@ def run(ctx, verdict, replay=None, model_ok=True):
                     continue
                 if kind in VALIDATE_FAULTS and x["std"] == "ok" and x["vals"] == "ok":
                     oracle["fault_not_caught_by_validate"] += 1
-                    report({"part": "validate", "kind": "injected-violation-not-reported",
-                            "cause": "constraint-behind-non-struct-reference" if i in alias else fmt + "-front-end-or-other"}, i,
+                    cause = ("constraint-behind-non-struct-reference" if i in alias else
+                             "union-of-structs-degraded-to-any:" + fmt
+                             if fmt == "openapi" and through_union_of_structs(schema_by0.get(j["sid"]), path)
+                             else fmt + "-front-end-or-other")
+                    report({"part": "validate", "kind": "injected-violation-not-reported", "cause": cause}, i,
                            {"doc_index": d, "fault": fl})
                 if kind in STRICT_FAULTS and x["strict"] == "ok":
                     oracle["fault_not_caught_by_strict"] += 1
-                    report({"part": "strict", "kind": "injected-fault-accepted", "cause": kind + ":" + fmt}, i,
+                    cause = ("union-of-structs-degraded-to-any:" + fmt
+                             if fmt == "openapi" and through_union_of_structs(schema_by0.get(j["sid"]), path)
+                             else kind + ":" + fmt)
+                    report({"part": "strict", "kind": "injected-fault-accepted", "cause": cause}, i,
                            {"doc_index": d, "fault": fl})
 
-    mm = sorted(set(ev["MM_STD"]) | set(ev["MM_STRICT"]) | set(ev["MM_VAL"]))
+    mm = sorted(set(ev["MM_STD"]) | set(ev["MM_STRICT"]) | set(ev["MM_VAL"]) | set(ev["MM_SPEC08"]))
     dead = [i for i, r in enumerate(camp.results) if r is None]
     for i in dead[:3]:
         verdict.propfail({"part": "driver", "kind": "process-died", "cause": "fatal"},
                          {"job": camp.job_payload(i), "observed": "driver process died (fatal error) or timed out"})
     unexplained = [{"job": camp.job_payload(i), "observed": camp.results[i],
-                    "which": [k for k in ("MM_STD", "MM_STRICT", "MM_VAL") if i in ev[k]]} for i in mm[:20]]
+                    "which": [k for k in ("MM_STD", "MM_STRICT", "MM_VAL", "MM_SPEC08") if i in ev[k]]} for i in mm[:20]]
 
     # ---- coverage (measured)
     unm = set(ev["UNM"])
@@ -308,7 +384,7 @@ def run(ctx, verdict, replay=None, model_ok=True):
         "oracle": oracle,
         "valid_documents_rejected_by_reference_examples": ref_rejects,
         "unmodelled_groups": len(ev["UNM"]),
-        "mismatches_model_vs_impl": {k: len(ev[k]) for k in ("MM_STD", "MM_STRICT", "MM_VAL")},
+        "mismatches_model_vs_impl": {k: len(ev[k]) for k in ("MM_STD", "MM_STRICT", "MM_VAL", "MM_SPEC08")},
         "propfails_spec_vs_impl": {k: len(ev[k]) for k in ("PF_MISSED", "PF_SPURIOUS", "PF_OVERACCEPT", "PF_OVERREJECT", "PF_PANIC")},
         "cases_validated_against_impl": len(live) - len(ev["UNM"]) - len(mm),
     }
